@@ -367,6 +367,35 @@ func (c *Ctx) eqCounting(fa *FnAnalysis, fn *ssa.Function, hdr *ssa.BasicBlock, 
 						okExit = true
 					}
 				}
+				// leaving (break) right after a comparison of this iteration reported a difference
+				if !okExit {
+					for b2 := range blocks {
+						for _, in2 := range b2.Instrs {
+							call, ok := in2.(*ssa.Call)
+							if !ok {
+								continue
+							}
+							if _, did := s.cep[call]; !did {
+								continue
+							}
+							cs := call.Call.Signature()
+							for i := 0; i < cs.Results().Len(); i++ {
+								if !isErrorType(cs.Results().At(i).Type()) {
+									continue
+								}
+								var rt *Term
+								if cs.Results().Len() == 1 {
+									rt = fa.term(s, call)
+								} else {
+									rt = fa.callResultTerm(s, call, i)
+								}
+								if v, known := s.get(aNN, rt); known && v {
+									okExit = true
+								}
+							}
+						}
+					}
+				}
 				// leaving through a return of a non-nil error
 				if !okExit {
 					if ret, isRet := sb.Instrs[len(sb.Instrs)-1].(*ssa.Return); isRet {
